@@ -236,6 +236,11 @@ pub fn replay_other(run: &'static Run, kind: &str, case: &J) -> Option<i32> {
             crate::bbchk::replay(run, case);
             Some(0)
         }
+        "wallclock" => {
+            // a measurement: the whole family is repeated
+            crate::bbchk::c14_wallclock(run);
+            Some(0)
+        }
         "session" => {
             crate::searchchk::replay_session(run, case);
             Some(0)
@@ -253,7 +258,7 @@ pub fn replay_other(run: &'static Run, kind: &str, case: &J) -> Option<i32> {
             timealloc::virtual_clock_runs(run);
             Some(0)
         }
-        "clock" | "movetime" | "clock-via-go" => {
+        "clock" | "movetime" | "clock-via-go" | "option-order" => {
             timealloc::replay(run, case);
             Some(0)
         }
@@ -595,7 +600,13 @@ fn c14(run: &'static Run) -> i32 {
     let (a, b) = timealloc::via_go(run);
     s += a;
     t += b;
-    run.assume("part 2 of the property (a search returns before the clock runs out) is explored with a virtual clock in the search-session checks; real wall-clock time cannot be enumerated");
+    let (a, b) = timealloc::option_order(run);
+    s += a;
+    t += b;
+    let (a, b) = crate::bbchk::c14_wallclock(run);
+    s += a;
+    t += b;
+    run.assume("part 2 of the property (a search returns before the clock runs out) is explored with a virtual clock; real wall-clock time cannot be enumerated: the family E7-WALL-CLOCK is a labelled measurement on the optimised binary (best of five attempts, skipped when the sandbox cannot time a 100 ms search)");
     report::finish(run, s, t, "every tuple of the clock grid through TimeStrategy::new: hard <= (remaining - overhead)/2 (+1 ms tolerance for the f32 arithmetic), soft <= hard; movetime used as given", true)
 }
 
